@@ -34,7 +34,7 @@ ASSUMPTIONS = [
 TRUSTED = ["z3 5.1 (LIA)", "vt.models (builtin models)", "vt.sym explorer", "CPython asyncio on a virtual clock"]
 BOUNDS = {"step": "r, m, d unbounded Int", "histories": "max_retries 0..3 quick / 0..6 thorough, all outcome sequences", "loops": "none in on_error"}
 REQUIRED_COVERS = ["resent", "not_resent_limit", "not_resent_disabled", "no_result_signal", "label_str", "label_int", "label_absent",
-                   "history_retried", "history_exhausted", "history_succeeded"]
+                   "history_retried", "history_exhausted", "history_succeeded", "history_previous_invocation"]
 
 RETRY_LABEL = ("absent", "bool", "strTrue", "strtrue", "strFalse", "strfalse")
 MAX_LABEL = ("absent", "int", "str")
@@ -182,7 +182,23 @@ def history(c: sym.Ctx, case: Dict[str, Any]) -> None:
         return outcomes[n - 1]
 
     lab, broker, recv, state = _setup(c, W, m if ml == "default" else 2, False, nror, outcome_of)
+    with_previous = c.flag("previous_invocation_of_same_task")
     try:
+        if with_previous:
+            # an earlier, different invocation of the same task fails and is re-sent through the same middleware instance
+            c.cover("history_previous_invocation")
+            outcomes.append("fail")
+            prev = W.kicker.AsyncKicker("t", broker, {"user": "A", "retry_on_error": True, "max_retries": 5}).with_task_id("idA")._prepare_message(9, x=9)
+            data0 = broker.formatter.dumps(prev).message
+
+            async def main0() -> None:
+                await recv.callback(data0)
+
+            lab.drive(lab.loop.create_task(main0()))
+            del outcomes[:]
+            state["n"] = 0
+            del broker.kicked[:]
+            del lab.ev[:]
         msg = W.kicker.AsyncKicker("t", broker, dict(labels)).with_task_id("id0")._prepare_message(1, x=2)
         wire = broker.formatter.dumps(msg)
         delivered = 0
